@@ -26,6 +26,10 @@ pub struct ViewCase {
     pub n: usize,
     pub len: usize,
     pub mode: Mode,
+    /// shared / mutable views are taken over `buffer[offset .. offset + len]` of a larger buffer, so the viewed slice has
+    /// a real position even when it is empty
+    #[serde(default)]
+    pub offset: usize,
 }
 
 pub const VIEW_KINDS: [Kind; 6] = [
@@ -65,9 +69,15 @@ where
     st.class_if(l == 0, "L = 0");
     let what = format!("{} samples as [{}; {}] ({:?})", l, S::name(), N, c.mode);
     let samples: Vec<S> = (0..l).map(|i| S::from_val(nth(k, i))).collect();
+    let off = c.offset;
+    // backing[off + i] == samples[i]; one extra element behind the viewed range
+    let backing: Vec<S> = (0..off + l + 1).map(|j| S::from_val(if j >= off { nth(k, j - off) } else { nth(k, 249 - j % 200) })).collect();
+    st.class_if(off > 0 && l == 0 && c.mode != Mode::Boxed, "empty slice at a non-zero offset of a buffer");
     match c.mode {
         Mode::Shared => {
-            let sp = samples.as_ptr();
+            let view: &[S] = &backing[off..off + l];
+            let sp = view.as_ptr();
+            let samples = view;
             // every entry point
             let a: Option<&[[S; N]]> = ds::to_frame_slice(&samples[..]);
             let b: Option<&[[S; N]]> = (&samples[..]).to_frame_slice();
@@ -94,13 +104,14 @@ where
             }
         }
         Mode::Mutable => {
-            let mut buf = samples.clone();
-            let sp = buf.as_ptr();
+            let mut whole = backing.clone();
+            let sp = whole[off..].as_ptr();
+            let buf: &mut [S] = &mut whole[off..off + l];
             {
                 let v: Option<&mut [[S; N]]> = ds::to_frame_slice_mut(&mut buf[..]);
                 ensure!(v.is_some() == divisible, "{}: to_frame_slice_mut returned {}", what, if v.is_some() { "Some" } else { "None" });
                 if let Some(fr) = v {
-                    ensure!(fr.len() == l / N && fr.as_ptr() as *const S == sp, "{}: mutable view has wrong length or pointer", what);
+                    ensure!(fr.len() == l / N && fr.as_ptr() as *const S == sp, "{}: mutable view has wrong length or does not view the same memory", what);
                     // write one marker through the view, at a position derived from the case
                     if l > 0 {
                         let (fi, ch) = ((l / 2) / N, (l / 2) % N);
@@ -118,8 +129,18 @@ where
             }
             let v2: Option<&mut [[S; N]]> = (&mut buf[..]).to_frame_slice_mut();
             ensure!(v2.is_some() == divisible, "{}: ToFrameSliceMut::to_frame_slice_mut", what);
+            if let Some(fr) = &v2 {
+                ensure!(fr.len() == l / N && fr.as_ptr() as *const S == sp, "{}: ToFrameSliceMut::to_frame_slice_mut has wrong length or does not view the same memory", what);
+            }
             let v3: Option<&mut [[S; N]]> = ds::from_sample_slice_mut(&mut buf[..]);
             ensure!(v3.is_some() == divisible, "{}: from_sample_slice_mut", what);
+            if let Some(fr) = &v3 {
+                ensure!(fr.len() == l / N && fr.as_ptr() as *const S == sp, "{}: from_sample_slice_mut has wrong length or does not view the same memory", what);
+            }
+            // nothing outside the viewed range was touched
+            for j in (0..off).chain(off + l..off + l + 1) {
+                ensure!(whole[j] == backing[j], "{}: element {} outside the viewed range [{}, {}) changed", what, j, off, off + l);
+            }
             if divisible {
                 let mut frames: Vec<[S; N]> = (0..l / N).map(|i| core::array::from_fn(|ch| samples[i * N + ch])).collect();
                 let fp = frames.as_ptr() as *const S;
@@ -365,13 +386,14 @@ pub fn check_op(c: &OpCase, st: &mut Stats) -> CheckResult {
 
 pub fn run(ctx: &mut Ctx) {
     ctx.set_rule(
-        "views: (format in {u8,i16,I24,f32,f64,U48}, N in 1..=32, length L, shared|mutable|boxed): every L in 0..=2N+1 exhaustively plus proptest lengths up to 4096; \
+        "views: (format in {u8,i16,I24,f32,f64,U48}, N in 1..=32, length L, shared|mutable|boxed, offset of the viewed range inside a larger buffer): every L in 0..=2N+1 exhaustively plus proptest lengths up to 4096; \
          in-place ops: (frame type, operation, destination length, source length, contents salt): every length pair up to 6 x 6 exhaustively plus random lengths up to 300; \
          non-trivial: N >= 3, N does not divide L, L = 0, boxed, or a non-f32 format; every in-place case",
     );
     ctx.assume("boxed conversions are measured with the harness's counting allocator: zero allocator events during a successful conversion, and every byte allocated for the box is released again after success-and-drop or after a failed conversion");
     ctx.assume("in-place operations are compared with the element-wise dasp Frame operation (whose per-channel correctness is C03's subject)");
     ctx.require_class("failed boxed conversion");
+    ctx.require_class("empty slice at a non-zero offset of a buffer");
     ctx.require_class("length mismatch (must panic, destination untouched)");
 
     let mut cases = Vec::new();
@@ -379,17 +401,17 @@ pub fn run(ctx: &mut Ctx) {
         for n in 1..=32usize {
             for len in 0..=2 * n + 1 {
                 for mode in [Mode::Shared, Mode::Mutable, Mode::Boxed] {
-                    cases.push(ViewCase { kind: k, n, len, mode });
+                    cases.push(ViewCase { kind: k, n, len, mode, offset: if len == 0 { n } else { (n + len) % 4 } });
                 }
             }
         }
     }
     let n = cases.len() as u64;
     ctx.par_enumerate("views/all-small-lengths", true, n, move |i| cases[i as usize].clone(), check_view);
-    let strat = (0usize..6, 1usize..=32, 0usize..=4096, 0usize..3, any::<bool>()).prop_map(|(ki, n, len, m, round)| {
+    let strat = (0usize..6, 1usize..=32, prop_oneof![6 => 0usize..=4096, 1 => Just(0usize)], 0usize..3, any::<bool>(), 0usize..70).prop_map(|(ki, n, len, m, round, offset)| {
         // half of the cases: a multiple of N (so the success path gets long inputs too)
         let len = if round { len - len % n } else { len };
-        ViewCase { kind: VIEW_KINDS[ki], n, len, mode: [Mode::Shared, Mode::Mutable, Mode::Boxed][m] }
+        ViewCase { kind: VIEW_KINDS[ki], n, len, mode: [Mode::Shared, Mode::Mutable, Mode::Boxed][m], offset }
     });
     ctx.prop("views/random-lengths", ctx.pick(40_000, 300_000), strat, check_view);
 
